@@ -463,10 +463,12 @@ Proof.
   apply (rg_dnolonger_ret _ _ Hp) in H. change (length ((TkName, w) :: r)) with (S (length r)). lia.
 Qed.
 
-Lemma rgl_ts_def_kw_nolonger : rg_dnolonger (rgl_ts_def_kw LP).
+Definition rg_dprogress (d : rg_dp) : Prop := forall ts x, d ts = RgOk x -> (length (snd x) < length ts)%nat.
+
+Lemma rgl_ts_def_kw_progress : rg_dprogress (rgl_ts_def_kw LP).
 Proof.
   intros ts x. unfold rgl_ts_def_kw. destruct ts as [|[k w] r]; [discriminate|]. destruct k; try discriminate.
-  assert (Hn : forall (d : rg_dp), rg_dnolonger d -> d r = RgOk x -> (length (snd x) <= length ((TkName, w) :: r))%nat).
+  assert (Hn : forall (d : rg_dp), rg_dnolonger d -> d r = RgOk x -> (length (snd x) < length ((TkName, w) :: r))%nat).
   { intros d Hd H. apply Hd in H. change (length ((TkName, w) :: r)) with (S (length r)). lia. }
   repeat match goal with |- context [if rg_streq ?a ?b then _ else _] => destruct (rg_streq a b) end; try discriminate.
   - apply Hn, rg_dnolonger_ret, rgl_schema_tail_nolonger.
@@ -479,4 +481,62 @@ Proof.
   - destruct r as [|[k2 w2] r2]; [discriminate|]. destruct k2; try discriminate. intros H.
     apply (rg_dnolonger_named _ _ rgl_dirdef_tail_nolonger) in H.
     change (length ((TkName, w) :: (TkAt, w2) :: r2)) with (S (S (length r2))). lia.
+Qed.
+
+Lemma rgl_ts_ext_kw_progress : rg_dprogress (rgl_ts_ext_kw LP).
+Proof.
+  intros ts x. unfold rgl_ts_ext_kw. destruct ts as [|[k w] r]; [discriminate|]. destruct k; try discriminate.
+  assert (Hn : forall (d : rg_dp), rg_dnolonger d -> d r = RgOk x -> (length (snd x) < length ((TkName, w) :: r))%nat).
+  { intros d Hd H. apply Hd in H. change (length ((TkName, w) :: r)) with (S (length r)). lia. }
+  repeat match goal with |- context [if rg_streq ?a ?b then _ else _] => destruct (rg_streq a b) end; try discriminate.
+  - apply Hn, rg_dnolonger_ret, rgl_schema_ext_tail_nolonger.
+  - apply Hn, rg_dnolonger_named. unfold rgl_scalar_tail. rl_nl idtac.
+  - apply Hn, rg_dnolonger_named. rl_nl ltac:(apply rgl_object_tail_nolonger).
+  - apply Hn, rg_dnolonger_named. rl_nl ltac:(apply rgl_object_tail_nolonger).
+  - apply Hn, rg_dnolonger_named. rl_nl ltac:(apply rgl_union_tail_nolonger).
+  - apply Hn, rg_dnolonger_named. rl_nl ltac:(apply rgl_enum_tail_nolonger).
+  - apply Hn, rg_dnolonger_named. rl_nl ltac:(apply rgl_input_tail_nolonger).
+Qed.
+
+Lemma rg_dprogress_ret y p : rg_progress p -> rg_dprogress (rg_ret y p).
+Proof.
+  intros Hp ts z. unfold rg_ret, rg_bind. destruct (p ts) as [r| |] eqn:E; try discriminate.
+  intros H. injection H as <-. cbn [snd]. exact (Hp _ _ E).
+Qed.
+Lemma rg_dprogress_le d ts x n : rg_dprogress d -> d ts = RgOk x -> (length ts <= n)%nat -> (length (snd x) < n)%nat.
+Proof. intros Hd H Hn. apply Hd in H. lia. Qed.
+
+(* every Definition of the relaxed grammar consumes at least one token *)
+Theorem rgl_definition_progress : rg_dprogress (rgl_definition LP).
+Proof.
+  intros ts x. unfold rgl_definition. destruct ts as [|[k w] r0]; [discriminate|].
+  assert (Hlen : length ((k, w) :: r0) = S (length r0)) by reflexivity.
+  (* results obtained on the tail r0 (or on something no longer than it) are strictly shorter than the input *)
+  assert (Htail : forall (p : rg_p) y rr, rg_nolonger p -> (length rr <= length r0)%nat -> rg_ret y p rr = RgOk x ->
+            (length (snd x) < length ((k, w) :: r0))%nat).
+  { intros p y rr Hp Hrr H. apply (rg_dnolonger_ret _ _ Hp) in H. rewrite Hlen. lia. }
+  destruct k; try discriminate.
+  - (* `{` : an anonymous operation; the selection set consumes the brace itself *)
+    unfold rgl_operation. apply rg_dprogress_ret. intros ts0 r1. apply (proj1 (rgl_sel_progress _)).
+  - (* a Name *)
+    destruct (rg_is_optype (TkName, w) || rg_streq rg_s_fragment w) eqn:Hex.
+    + unfold rgl_exec_definition. destruct (rg_is_kw rg_s_fragment (TkName, w)).
+      * unfold rgl_fragment. destruct r0 as [|[k2 w2] r']; [discriminate|]. destruct k2; try discriminate.
+        destruct (_ && _); [|discriminate]. intros H.
+        apply (rg_dnolonger_ret _ _ rgl_fragment_tail_nolonger) in H.
+        change (length ((TkName, w) :: (TkName, w2) :: r')) with (S (S (length r'))). lia.
+      * unfold rgl_operation. destruct (rg_is_optype (TkName, w)); [|discriminate].
+        destruct r0 as [|[k2 w2] r']; [apply (Htail _ _ [] rgl_op_tail_nolonger); cbn; lia|].
+        destruct k2; try (apply (Htail _ _ _ rgl_op_tail_nolonger); lia).
+        apply (Htail _ _ r' rgl_op_tail_nolonger). cbn [length]. lia.
+    + destruct (rg_streq rg_s_extend w).
+      * intros H. apply rgl_ts_ext_kw_progress in H. change (length ((TkName, w) :: r0)) with (S (length r0)). lia.
+      * apply rgl_ts_def_kw_progress.
+  - (* a description *)
+    unfold rgl_desc_then.
+    assert (Hdef : rgl_ts_def_kw LP r0 = RgOk x -> (length (snd x) < length ((TkStringValue, w) :: r0))%nat).
+    { intros H. apply rgl_ts_def_kw_progress in H. change (length ((TkStringValue, w) :: r0)) with (S (length r0)). lia. }
+    destruct r0 as [|[k2 w2] r']; [exact Hdef|]. destruct k2; try exact Hdef.
+    destruct (_ && _); [|exact Hdef].
+    apply (Htail _ _ r' rgl_fragment_tail_nolonger). cbn [length]. lia.
 Qed.
